@@ -23,7 +23,7 @@ CHECKS['C03'] = dict(text='Bounded symbolic execution of the real literal writer
              note=TRUST_M + 'Oracle: reference lexers of MySQL / PostgreSQL / SQLite literal syntax in props/lexers.py. NUL excluded for PostgreSQL/SQLite text. Known finding: U+001A is written as \\z (see known_findings.txt).',
              technique='symbolic execution of rustc MIR with z3 deciding per-path assertions against reference lexers', ref='6/C03', engine=ENGINE_M)
 CHECKS['C04'] = dict(text='Bounded symbolic execution of the real identifier quoting (Iden::prepare/quoted, prepare_column_ref, prepare_table_ref, select/join/order/group renderers, Postgres enum cast) '
-                  'for every identifier of up to L Unicode scalar values (L=2 quick, 3 to 5 thorough) at 76 identifier positions (SELECT, INSERT / upsert, UPDATE, DELETE, WITH, window names, CREATE / ALTER / DROP / RENAME TABLE, index, constraint, foreign-key and Postgres type names) on the three backends: z3 proves on every path that exactly one quoted-identifier '
+                  'for every identifier of up to L Unicode scalar values (L=2 quick, 3 to 5 thorough) at 78 identifier positions (SELECT, INSERT / upsert, UPDATE, DELETE, WITH, window names, CREATE / ALTER / DROP / RENAME TABLE, index, constraint, foreign-key and Postgres type names) on the three backends: z3 proves on every path that exactly one quoted-identifier '
                   'token is emitted at each occurrence, that it decodes to the supplied name, and that the rest of the statement is unchanged.',
              note=TRUST_M + 'Oracle: quoted-identifier lexers (back-tick / double quote with doubling). Positions a dialect does not have are skipped (listed in props/c04.py NOT_ON). Known findings: Postgres ALTER TYPE .. RENAME TO writes a string literal, Postgres enum column type name is written unquoted.',
              technique='symbolic execution of rustc MIR with z3 deciding per-path assertions against reference lexers', ref='6/C04', engine=ENGINE_M)
@@ -34,7 +34,7 @@ CHECKS['C11'] = dict(text='Bounded symbolic execution of the real CustomWithExpr
                   'Known finding: inject_parameters re-reads the literal mark produced by a doubled mark.',
              technique='symbolic execution of rustc MIR with z3 deciding per-path equality with a reference substitution', ref='6/C11', engine=ENGINE_M)
 CHECKS['C05'] = dict(text='Bounded symbolic execution of the real expression renderer (prepare_simple_expr, binary_expr, the precedence and associativity deciders of the three backends, the ExprTrait encodings of BETWEEN / LIKE..ESCAPE / IN / CAST / IS NULL / NOT) '
-                  'over all expression trees of depth <= 2 (18 node kinds at every operand position; depth 3 over 8 core kinds in the thorough tier) in which every plain binary operator is a symbolic discriminant over 17 operators: on every feasible path the rendered text is parsed by a '
+                  'over all expression trees of depth <= 2 (19 node kinds at every operand position; depth 3 through enum casts in both tiers and over 8 core kinds in the thorough tier) in which every plain binary operator is a symbolic discriminant over 17 operators: on every feasible path the rendered text is parsed by a '
                   'reference precedence-climbing parser of the target dialect and must yield exactly the built tree (extra parentheses are accepted).',
              note=TRUST_M + 'Oracle: props/sqlparse.py - precedence levels / associativity of MySQL 8.0, PostgreSQL 16 and SQLite 3.45 from their manuals and grammar files; an operator unknown to a dialect must be fully parenthesised. Both the default build and the option-more-parentheses build are explored (own MIR dump and native replay binary each).',
              technique='symbolic execution of rustc MIR with symbolic operator discriminants; z3 decides path feasibility, a reference parser decides each path', ref='6/C05', engine=ENGINE_M)
@@ -70,7 +70,7 @@ CHECKS['C01'] = dict(text='Bounded symbolic execution of build() through the cra
              note=TRUST_M + 'Oracle: scan_placeholders() / marker_of() in props/families.py. The documented MySQL NULLS FIRST/LAST emulation and ORDER BY FIELD on an expression render the expression (and its value) more than once by design.',
              technique='symbolic execution of rustc MIR (clause-combination forking, symbolic values) with term-identity assertions decided by z3', ref='6/C01', engine=ENGINE_M)
 CHECKS['C02'] = dict(text='On the same families, with payloads of ten value types symbolic (full-width integers, chars, bytes, bool, NULL): z3 proves on every path that to_string() equals build() with each placeholder replaced by value_to_string() of its value (element-wise over symbolic text), '
-                  'that the seven rendering entry points return the same SQL and values, that rendering twice gives the same result and that the statement is structurally unchanged (crate PartialEq) after rendering.',
+                  'that the seven rendering entry points return the same SQL and values (also on a family with quoting-sensitive text - aliases ending in a backslash, strings holding placeholder marks, LIKE .. ESCAPE - ahead of bound values), that rendering twice gives the same result and that the statement is structurally unchanged (crate PartialEq) after rendering.',
              note=TRUST_M + 'Execution on a live engine ("return the same rows") is outside the technique; textual identity modulo literal substitution implies it. The correctness of the literal itself is C03.',
              technique='symbolic execution of rustc MIR with element-wise symbolic text equality decided by z3', ref='6/C02', engine=ENGINE_M)
 CHECKS['C08'] = dict(text='Bounded symbolic execution of the whole MySQL and Postgres renderers (build and to_string) over the statement families incl. the dialect-specific toggles (ON DUPLICATE KEY UPDATE, UPDATE..JOIN..ON, VALUES ROW, index hints, NULLS emulation; DISTINCT ON, TABLESAMPLE, locking, '
